@@ -215,7 +215,7 @@ def _run_fuzz(pid, clause, col, tier, shard, seed):
         shutil.rmtree(tmp, ignore_errors=True)
 
 
-COV_RUNS = {"quick": 0, "thorough": 30000}
+COV_RUNS = {"quick": 4000, "thorough": 30000}
 
 
 def cov_runs(clause, tier, examples=None):
@@ -444,8 +444,9 @@ def main(argv=None):
     ap.add_argument("--engine", choices=["cov", "both"], default=None,
                     help="cov: only the coverage-guided campaigns "
                          "(vf/covfuzz.py); both: them and the Hypothesis "
-                         "shards; default: Hypothesis in the quick tier, "
-                         "both in the thorough tier")
+                         "shards; default: the Hypothesis shards only "
+                         "(measured: the coverage-guided campaigns add no "
+                         "detections here, see DESIGN.md 0.2)")
     ap.add_argument("--no-evidence", action="store_true")
     ap.add_argument("--no-regressions", action="store_true",
                     help="sensitivity testing: skip the saved regression "
@@ -552,8 +553,7 @@ def run_checks(mod, pid, args, seed, t0):
         if args.engine != "cov":
             for s in range(nshards):
                 tasks.append((pid, i, s, nshards, tier, seed, args.examples))
-        if args.engine in ("cov", "both") or \
-                (args.engine is None and tier == "thorough"):
+        if args.engine in ("cov", "both"):
             if c.strategy is not None and c.fuzz is None and \
                     c.enumerate is None and not c.isolate and \
                     c.cov is not False and cov_runs(c, tier, args.examples):
